@@ -264,6 +264,13 @@ def run(tier):
         if k not in seen:
             seen.add(k)
             behaviours.append(r["hist"])
+    t.records = None
+    total_behaviours = len(behaviours)
+    cap = 9000
+    if len(behaviours) > cap:
+        # three-run histories: a seeded sample (every two-run history is replayed by the quick tier; TLC itself checks the model on all of them)
+        rs = random.Random(v.seed * 7919 + 11)
+        behaviours = [behaviours[i] for i in sorted(rs.sample(range(len(behaviours)), cap))]
     if not unpriv:
         behaviours = [h for h in behaviours if not any(x["before"]["kind"] == "unreadable" for x in h)]
         v.assumptions.append("cannot drop privileges in this environment: 'unreadable' key files not exercised")
@@ -385,7 +392,7 @@ def run(tier):
         v.spec_drift({"trace_of": owners[ti], "rejected_at_event": ei, "event": ev, "trace": traces[ti]})
     shutil.rmtree(root, ignore_errors=True)
     v.cov.update({"states": t.distinct + tstates, "transitions": t.generated, "traces_validated_against_impl": acc, "traces_rejected": len(rej),
-                  "exhaustive": True, "behaviours_replayed": len(behaviours), "runs_per_behaviour": maxruns, "generated_keys_seen": len(generated),
+                  "exhaustive": total_behaviours <= 9000, "behaviours_replayed": len(behaviours), "behaviours_of_model": total_behaviours, "runs_per_behaviour": maxruns, "generated_keys_seen": len(generated),
                   "ciphertexts_decrypted": len(to_decrypt), "unprivileged_runs": unpriv,
                   "initial_states": ["absent", "valid", "validNL", "validLink", "empty", "short", "long", "nonb64", "dir", "unreadable", "noparent"],
                   "key_write_fault_runs": nkw,
